@@ -193,7 +193,7 @@ def coq_case(case, obs, sysname, flag):
                obs["steps"], obs["iterations"], "[" + ";".join(fl(e) for e in obs["errors"]) + "]"))
 
 
-def eval_in_coq(name, items, flag, shard=120, timeout=900, div_small=True):
+def eval_in_coq(name, items, flag, shard=120, timeout=900, div_small=True, abs_guard=True):
     """items: list of (case, obs). Returns (failing indices, near-tie indices, error or None)."""
     jobs, index = [], []
     for cplx in (False, True):
@@ -211,7 +211,7 @@ def eval_in_coq(name, items, flag, shard=120, timeout=900, div_small=True):
                 terms.append(coq_case(c, o, systems[key], flag))
             ty = "cpx" if cplx else "float"
             text = HEADER + "".join(body) + "Definition cases : list (case %s) := [\n" % ty + ";\n".join(terms) + "].\n"
-            text += "Eval vm_compute in (length cases, %s cases).\n" % (("classify_cplx" if cplx else "classify_real") + ("" if div_small else "1"))
+            text += "Eval vm_compute in (length cases, %s cases).\n" % (("classify_cplx" if cplx else "classify_real") + ("" if div_small else ("1" if abs_guard else "2")))
             jobs.append(("%s_%s%d" % (name, "c" if cplx else "r", s // shard), text))
             index.append(part)
     outs = core.coqc_many(jobs, timeout)
@@ -380,7 +380,7 @@ def oracle(case, obs, flag_present, opt_tol):
 
 
 # ---------------------------------------------------------------- numerical-stability filter (case selection only)
-def ref_cg(A, Pd, B, X0, tol, K, dtype, x0_unscaled=True, div_small=True):
+def ref_cg(A, Pd, B, X0, tol, K, dtype, x0_unscaled=True, div_small=True, abs_guard=True):
     """Reference recurrence of preconditioned CG with per-column normalisation in precision `dtype`; used ONLY to
     decide whether a case is numerically stable enough for a tolerance comparison (it depends on the inputs only,
     never on cola's output), not as an oracle."""
@@ -390,7 +390,7 @@ def ref_cg(A, Pd, B, X0, tol, K, dtype, x0_unscaled=True, div_small=True):
     hit = [False]      # a guard of do_safe_div fired although the numerator is not zero: the absolute 1e-40 acts on a scaled quantity
 
     def sdiv(num, den):
-        z = np.abs(den) < small
+        z = (np.abs(den) < small) if abs_guard else (np.abs(den) == 0)
         if np.any(z & (np.abs(num) > 0)):
             hit[0] = True
         return num / np.where(z, small if div_small else 1.0, den)
@@ -429,8 +429,8 @@ def stability(case, x0_unscaled=True):
     cplx = case["cplx"]
     B = case["B"]
     X0 = case["X0"] if case["X0"] is not None else np.zeros_like(B)
-    lo = ref_cg(case["A"], case["Pd"], B, X0, case["tol"], case["max_iters"], np.complex128 if cplx else np.float64, x0_unscaled, case.get("div_small", True))
-    hi = ref_cg(case["A"], case["Pd"], B, X0, case["tol"], case["max_iters"], np.clongdouble if cplx else np.longdouble, x0_unscaled, case.get("div_small", True))
+    lo = ref_cg(case["A"], case["Pd"], B, X0, case["tol"], case["max_iters"], np.complex128 if cplx else np.float64, x0_unscaled, case.get("div_small", True), case.get("abs_guard", True))
+    hi = ref_cg(case["A"], case["Pd"], B, X0, case["tol"], case["max_iters"], np.clongdouble if cplx else np.longdouble, x0_unscaled, case.get("div_small", True), case.get("abs_guard", True))
     out = dict(same_steps=lo["steps"] == hi["steps"], steps=lo["steps"], min_margin=min(lo["margins"] + hi["margins"]), guard_hit=bool(lo["guard_hit"] or hi["guard_hit"]))
     if not out["same_steps"]:
         out.update(dev_x=np.inf, dev_r=np.inf, sens_A=np.inf, sens_rel=np.inf)
